@@ -581,6 +581,23 @@ pub fn run_entry<K: KeyT, V: ValT>(m: &mut M<K, V>, _other: &mut M<K, V>, name: 
         ("entry", l) if l >= 3 => run_entry_chain(m, n(0), n(1), &a[2..]),
         ("entry_ref", l) if l >= 3 => entry_ref_dispatch(m, n(0), n(1), &a[2..]),
         ("rustc_entry", l) if l >= 3 => run_rustc_chain(m, n(0), n(1), &a[2..]),
+        ("entry_replace_panic", 2) => {
+            // a panicking user closure inside replace_entry_with (the element must already be out of
+            // the table when the closure runs)
+            let key = K::new(n(0), n(1));
+            match m.entry(key) {
+                Entry::Occupied(o) => {
+                    let _ = o.replace_entry_with(|_k, _v| -> Option<V> {
+                        std::panic::panic_any(tape::TapePanic("pred"))
+                    });
+                    "occ".into()
+                }
+                Entry::Vacant(v) => {
+                    drop(v);
+                    "vac".into()
+                }
+            }
+        }
         ("try_insert", 4) => {
             let (k, kid) = (n(0), n(1));
             let key = K::new(k, kid);
@@ -956,6 +973,7 @@ pub fn moved_in(name: &str, a: &[&str]) -> Vec<String> {
         _ => {}
     };
     match name {
+        "entry_replace_panic" if a.len() == 2 => out.push(format!("k{}", a[1])),
         "entry" | "rustc_entry" if a.len() >= 3 => {
             out.push(format!("k{}", a[1]));
             chain_val(&a[2..], &mut out);
